@@ -357,7 +357,9 @@ def _after_build(pid, args, seed, t0, reg, known, tier, facts, facts_changed, bu
             # go deep only if that finds nothing (a failing tree is then reported fast)
             ctx.deep = False
             res = hmod.run(ctx)
-            if not (res.get('violations') or res.get('disagreements')):
+            listed_keys = {k['key'] for k in known.get('known', []) if k['property'] == pid}
+            if not ([v for v in res.get('violations', []) if v.get('key') not in listed_keys]
+                    or res.get('disagreements')):
                 first = res.get('evaluations', 0)
                 ctx.deep = True
                 ctx.rng = random.Random(seed + 1)
